@@ -24,6 +24,21 @@ EncBMP24(topdown) ==
       hdr == <<66, 77>> \o LE32(54 + Len(rows)) \o <<0, 0, 0, 0>> \o LE32(54) \o LE32(40) \o LE32(w) \o hbytes \o <<1, 0, 24, 0>> \o LE32(0) \o LE32(0)
                \o LE32(2834) \o LE32(2834) \o LE32(0) \o LE32(0) IN
   hdr \o rows
+(* PNG filtering written from the definition (section 9.2: Filt(x) = Orig(x) - predictor, mod 256), one filter type per row
+   chosen by (row + ft0) mod 5; reconstruction must invert it for every small image. *)
+FilterRow(ft, row, prior, bpp) ==
+  [i \in 1..Len(row) |->
+     LET a == IF i > bpp THEN row[i - bpp] ELSE 0
+         b == prior[i]
+         c == IF i > bpp THEN prior[i - bpp] ELSE 0
+         pred == CASE ft = 0 -> 0 [] ft = 1 -> a [] ft = 2 -> b [] ft = 3 -> (a + b) \div 2 [] OTHER -> Paeth(a, b, c) IN
+     (row[i] - pred + 256) % 256]
+Filtered(ft0) ==
+  LET rowlen == w * NCh
+      rowOf(y) == SubSeq(Img.raw, y * rowlen + 1, (y + 1) * rowlen) IN
+  FoldLeft(LAMBDA acc, y : acc \o <<(y + ft0) % 5>> \o FilterRow((y + ft0) % 5, rowOf(y), IF y = 0 THEN [i \in 1..rowlen |-> 0] ELSE rowOf(y - 1), NCh),
+           <<>>, [y \in 1..h |-> y - 1])
+PngFilterLaw == \A ft0 \in 0..4 : Unfilter(Filtered(ft0), w * NCh, h, NCh) = Img.raw
 P6Law == alpha \/ (SameImage(DecPNM(EncP6), Img) /\ \A k \in 0..(Len(EncP6) - 1) : ~DecPNM(SubSeq(EncP6, 1, k)).ok)
 BmpLaw == alpha \/ \A td \in BOOLEAN :
             LET f == EncBMP24(td) pad == (4 - ((w * 3) % 4)) % 4 IN
